@@ -612,45 +612,40 @@ impl Extensions {
                 assert_eq!(wrote, 24);
 
                 let body = ext.response.body_mut();
-                // let mut new_body = BytesMut::with_capacity(body.len() + 24 * 4);
                 let mut replacement = Vec::with_capacity(28);
-                let mut last_start = 0;
+                // everything before this index is final
+                let mut search_from = 0;
 
-                while let Some(occurrence) =
-                    memchr::memmem::find(&body[last_start + 1..], b"nonce=")
+                while let Some(occurrence) = body
+                    .get(search_from..)
+                    .and_then(|rest| memchr::memmem::find(rest, b"nonce="))
                 {
-                    let occurrence = occurrence + last_start + 1;
                     // +6 as that's the length of b"nonce="
-                    let rest = &body[occurrence + 6..];
-                    let first = rest.first();
-                    let end = match first {
-                        Some(b'"') => memchr::memchr(b'"', &rest[1..]),
-                        Some(b'\'') => memchr::memchr(b'\'', &rest[1..]),
+                    let value_start = search_from + occurrence + 6;
+                    let rest = &body[value_start..];
+                    let quote = match rest.first() {
+                        Some(quote @ (b'"' | b'\'')) => Some(*quote),
                         _ => None,
                     };
-                    // we shortened the list by 1
-                    let end = end.map(|v| v + 1 + 6);
-                    if let Some(end) = end {
-                        let double = *first.unwrap() == b'"';
-                        last_start = occurrence + end;
+                    // index of the closing quote in `rest`
+                    let closing = quote
+                        .and_then(|quote| memchr::memchr(quote, &rest[1..]))
+                        .map(|v| v + 1);
+                    let quote = match (quote, closing) {
+                        (Some(quote), Some(_)) => quote,
+                        _ => b'"',
+                    };
+                    // replace the whole quoted value, both quotes included.
+                    // If there is no (terminated) quoted value, only insert.
+                    let value_end = closing.map_or(value_start, |closing| value_start + closing + 1);
 
-                        if double {
-                            replacement.push(b'"');
-                        } else {
-                            replacement.push(b'\'');
-                        }
-                        replacement.extend_from_slice(&s);
+                    replacement.push(quote);
+                    replacement.extend_from_slice(&s);
+                    replacement.push(quote);
 
-                        if double {
-                            replacement.push(b'"');
-                        } else {
-                            replacement.push(b'\'');
-                        }
-                    } else {
-                        replacement.extend_from_slice(b"\"\"");
-                        last_start = occurrence + 6 + 2;
-                    }
-                    body.replace(occurrence + 6..last_start, &replacement);
+                    body.replace(value_start..value_end, &replacement);
+                    // continue after what we just wrote
+                    search_from = value_start + replacement.len();
                     replacement.clear();
                 }
 
